@@ -69,14 +69,15 @@ FuncRepImpl(M, tn, ti, Varr, y) ==
 BigU(M, t, Vnext, env) ==
   LET u == CallF(M, "utility", env)
   IN IF t = M.T - 1 THEN u
-     ELSE LET det  == NextDet(M, env)
+     ELSE LET det0 == NextDet(M, env)
+              det(l) == IF DetReadsDraw(M) THEN NextDetGiven(M, env, l) ELSE det0
               sn   == StochNames(M)
               rows == [st \in sn |-> ShockRow(M, st, env)]
               labs == LabelCombos(M)
               ti   == IF IndexerPeriod = "next" THEN t + 1 ELSE t
               ev   == RSum(labs, LAMBDA l :
                          RMul(RProd(sn, LAMBDA st : rows[st][l[st] + 1]),
-                              FuncRepImpl(M, t + 1, ti, Vnext, det @@ [st \in sn |-> R(l[st])])))
+                              FuncRepImpl(M, t + 1, ti, Vnext, det(l) @@ [st \in sn |-> R(l[st])])))
           IN RAdd(u, RMul(M.params["beta"], ev))
 \* compute_ccv: max over the product of the continuous choice grids under the constraint mask
 ComputeCcv(M, t, Vnext, envDisc) ==
